@@ -1,6 +1,7 @@
 import MosnVerif.Drive.DispatchCtx
 import MosnVerif.Drive.BufReuse
 import MosnVerif.Drive.HpackOrder
+import MosnVerif.Drive.StreamGen
 import MosnVerif.Drive.Util
 import MosnVerif.Model.StreamTableSpec
 import MosnVerif.Model.CorrelateSpec
@@ -251,6 +252,7 @@ def run (caseToks impl : List String) : String :=
   | ["ctx", proto, _stream, frames, chunks] => MosnVerif.Drive.DispatchCtx.run proto frames chunks impl
   | ["h1b", _nconn, plan] => MosnVerif.Drive.BufReuse.run plan impl
   | ["h2w", side, _mode, _w, resps] => MosnVerif.Drive.HpackOrder.run side resps impl
+  | ["sgen", plan] => MosnVerif.Drive.StreamGen.run plan impl
   | _ => "E E unknown-kind"
 
 end MosnVerif.Drive.C02
